@@ -41,6 +41,16 @@ def cases(tier):
     ts = sorted(set(ts) | set(corpus.span_templates(3)), key=lambda s: (len(s), s))
     for i in range(0, len(ts), 8):
         out.append({"k": "jinja", "ts": ts[i : i + 8]})
+    # characters that look like line breaks to some libraries but are ordinary data for SQL (and lone CR /
+    # CRLF, which are line endings): inside a string literal and a comment of a file that gets a fix
+    specials = ["\x0b", "\x0c", "\x1c", "\x1d", "\x1e", "\x85", " ", " ", "\r", "\r\n", " ", "﻿"]
+    sp = []
+    for ch in specials:
+        sp.append("SELECT a  FROM t WHERE b = 'x" + ch + "y'\n")
+        sp.append("SELECT a  FROM t -- c" + ch + "d\nWHERE b = 1\n")
+        sp.append("SELECT a  FROM t" + ch + "WHERE b = 1\n")
+    out.append({"k": "strs", "d": "ansi", "rs": "all", "ss": sp})
+    out.append({"k": "strs", "d": "ansi", "rs": "layout", "ss": sp})
     for body, enc, eol, bad, cfgenc in itertools.product(BODIES, ENCODINGS, EOLS, range(len(BAD)), ("autodetect", "utf-8")):
         if BAD[bad] is not None and enc in ("utf-16",):
             continue
@@ -100,7 +110,21 @@ def string_level(one, lnt, text, res):
         return
     if fixed is None:
         return
-    src = lf.templated_file.source_str
+    import re as _re
+
+    # the reference is the INPUT with only CRLF / CR turned into LF -- not whatever source string the
+    # linter kept (a normalisation that eats more than line endings must not become the yardstick)
+    src = _re.sub(r"\r\n|\r", "\n", text)
+    if lf.templated_file.source_str != src:
+        res["fails"].append(
+            {
+                "clause": "source_differs_from_input",
+                "features": {},
+                "detail": {"input": text[:120], "source_str": lf.templated_file.source_str[:120]},
+                "case": one,
+            }
+        )
+        return
     ranges = patches_of(lf)
     why = untouched_ok(src, fixed, ranges)
     if why:
